@@ -2908,7 +2908,10 @@ void IGXMLScanner::scanCharData(XMLBuffer& toUse)
 
                     if (scanEntityRef(false, nextCh, secondCh, escaped) != EntityExp_Returned)
                     {
+                        // the reference separates what precedes it from what
+                        // follows: "]]&ent;>" does not contain "]]>"
                         gotLeadingSurrogate = false;
+                        curState = State_Waiting;
                         continue;
                     }
                     else
